@@ -138,7 +138,7 @@ func (dp *deniableProver) proofStep() (bool, error) {
 	if err != nil {
 		return false, err
 	}
-	if !bytes.Equal(msgs[dp.self], dp.msg.Bytes()) {
+	if dp.self >= len(msgs) || !bytes.Equal(msgs[dp.self], dp.msg.Bytes()) {
 		return false, errors.New("own messages were corrupted")
 	}
 	dp.msgs = msgs
@@ -191,8 +191,11 @@ func (dp *deniableProver) challengeStep() error {
 	// (even if all others turn out to be maliciously generated).
 	mix := make([]byte, keySize)
 	for i := range keys {
-		com := dp.msgs[i] // node i's randomness commitment (prefix)
-		key := keys[i]    // node i's committed random key
+		var com []byte // node i's randomness commitment (prefix)
+		if i < len(dp.msgs) {
+			com = dp.msgs[i]
+		}
+		key := keys[i] // node i's committed random key
 		if len(com) < keySize || len(key) < keySize {
 			continue // ignore participants who dropped out
 		}
